@@ -11,6 +11,7 @@ use crate::compiler::analyses::components::{ComponentDb, ComponentId};
 use crate::compiler::analyses::computations::ComputationDb;
 use crate::compiler::analyses::processing_pipeline::RequestHandlerPipeline;
 use crate::compiler::analyses::router::Router;
+use crate::compiler::analyses::user_components::UserComponentId;
 use crate::compiler::component::Constructor;
 use crate::compiler::computation::{Computation, MatchResultVariant};
 use crate::compiler::framework_rustdoc::resolve_type_path;
@@ -181,7 +182,7 @@ fn report_non_existing_path_parameters(
     // an error on each of them.
     let consuming_ids = path_params_consumer_ids(call_graph, ok_path_params_node_id);
     for component_id in consuming_ids {
-        let Some(user_id) = component_db.user_component_id(component_id) else {
+        let Some(user_id) = registered_component_id(component_db, component_id) else {
             continue;
         };
         let callable = &computation_db[user_id];
@@ -304,7 +305,7 @@ fn must_be_a_plain_struct(
     let consuming_ids = path_params_consumer_ids(call_graph, ok_path_params_node_id);
 
     for component_id in consuming_ids {
-        let Some(user_id) = component_db.user_component_id(component_id) else {
+        let Some(user_id) = registered_component_id(component_db, component_id) else {
             continue;
         };
         let callable = &computation_db[user_id];
@@ -337,6 +338,21 @@ fn must_be_a_plain_struct(
 
 /// Return the set of user component ids that consume a certain instance of the `PathParams` extractor
 /// as input parameter.
+/// The user registration an error on `component_id` should be reported against.
+///
+/// Components that Pavex derived from a user registration (e.g. a wrapping middleware
+/// bound to the concrete type of its `Next` state) are traced back to that registration.
+fn registered_component_id(
+    component_db: &ComponentDb,
+    component_id: ComponentId,
+) -> Option<UserComponentId> {
+    component_db.user_component_id(component_id).or_else(|| {
+        component_db
+            .derived_from(&component_id)
+            .and_then(|id| component_db.user_component_id(id))
+    })
+}
+
 fn path_params_consumer_ids(
     call_graph: &RawCallGraph,
     ok_path_params_node_id: NodeIndex,
